@@ -31,7 +31,8 @@ Deltas == ${Deltas}
 Small == ${Small}
 OFit(x) == OriginMax(x) - Hdr0(OriginProto(x), Kind(x), x.a) - TagLen(OriginProto(x))
 RFit(x) == RelayMax(x, UnpackedAddr(x)) - Hdr0(RelayProto(x), Kind(x), UnpackedAddr(x)) - TagLen(RelayProto(x))
-EdgeLens(x) == {l \in Small \cup {OFit(x) + d : d \in Deltas} \cup {RFit(x) + d : d \in Deltas} : l >= 0}
+\* (lengths beyond the sender's own limit + 2 add nothing: the sender refuses them all alike)
+EdgeLens(x) == {l \in Small \cup {OFit(x) + d : d \in Deltas} \cup {RFit(x) + d : d \in Deltas} : l >= 0 /\ l <= OFit(x) + 2}
 \* named fixed payload lengths (slices where the lengths are given)
 FixedLens == ${FixedLens}
 MCLensOf(x) == IF x.lm = "edge" THEN EdgeLens(x) ELSE FixedLens[x.lm]
